@@ -3,6 +3,7 @@ package main
 import (
 	"fmt"
 	"go/types"
+	"hash/fnv"
 	"sort"
 	"strings"
 )
@@ -258,21 +259,22 @@ func (ss *Sorts) structOf(t types.Type, st *types.Struct) *structInfo {
 	if si, ok := ss.byKey[key]; ok {
 		return si
 	}
-	base := "S_anon"
+	name := "S_anon_" + shortHash(key)
 	if n, ok := types.Unalias(t).(*types.Named); ok {
-		base = "S_"
+		name = "S_"
 		if n.Obj().Pkg() != nil {
-			base += mangle(n.Obj().Pkg().Name()) + "_"
+			name += mangle(n.Obj().Pkg().Name()) + "_"
 		}
-		base += mangle(n.Obj().Name())
+		name += mangle(n.Obj().Name())
+		if n.Obj().Pkg() != nil && !strings.HasPrefix(n.Obj().Pkg().Path(), "github.com/cloudflare/pint") && strings.Contains(n.Obj().Pkg().Path(), "/") {
+			name += "_" + shortHash(n.Obj().Pkg().Path())
+		}
 		if n.TypeArgs() != nil && n.TypeArgs().Len() > 0 {
-			base += "_g"
+			name += "_g" + shortHash(key)
 		}
 	}
-	ss.names[base]++
-	name := base
-	if ss.names[base] > 1 || base == "S_anon" {
-		name = fmt.Sprintf("%s_%d", base, ss.names[base])
+	if other, clash := ss.byName[name]; clash && other != nil {
+		name += "_" + shortHash(key)
 	}
 	si := &structInfo{name: name, st: st}
 	ss.byKey[key] = si
@@ -315,9 +317,9 @@ func (ss *Sorts) zeroOfSort(s string, t types.Type) string {
 	case SStr:
 		return ss.strLit("")
 	case SSlice:
-		return "nilslice"
+		return "(mk_Slice 0 0 0 0)"
 	case SIface:
-		return "niliface"
+		return "(mk_Iface 0 0)"
 	case "Tuple":
 		return "0"
 	}
@@ -348,10 +350,19 @@ func (ss *Sorts) strLit(v string) string {
 	if c, ok := ss.strLits[v]; ok {
 		return c
 	}
-	c := fmt.Sprintf("strlit_%d", len(ss.strList))
+	c := "strlit_" + shortHash("s:"+v)
+	if v == "" {
+		c = "strlit_empty"
+	}
 	ss.strLits[v] = c
 	ss.strList = append(ss.strList, v)
 	return c
+}
+
+func shortHash(s string) string {
+	h := fnv.New64a()
+	h.Write([]byte(s))
+	return fmt.Sprintf("%010x", h.Sum64()&0xffffffffff)
 }
 
 func (ss *Sorts) tagOf(t types.Type) int {
@@ -359,7 +370,9 @@ func (ss *Sorts) tagOf(t types.Type) int {
 	if n, ok := ss.typeTag[k]; ok {
 		return n
 	}
-	n := len(ss.tagList) + 1
+	h := fnv.New32a()
+	h.Write([]byte(k))
+	n := int(h.Sum32()&0x3fffffff) + 1
 	ss.typeTag[k] = n
 	ss.tagList = append(ss.tagList, k)
 	ss.tagType = append(ss.tagType, t)
@@ -386,7 +399,9 @@ func (ss *Sorts) datatypeDecls(used func(name string) bool) string {
 		out = append(out, si)
 	}
 	// iterate over a snapshot; structOf may not be called during emission
-	for _, si := range ss.order {
+	ordered := append([]*structInfo{}, ss.order...)
+	sort.Slice(ordered, func(i, j int) bool { return ordered[i].name < ordered[j].name })
+	for _, si := range ordered {
 		if used(si.name) {
 			visit(si)
 		}
@@ -416,3 +431,6 @@ func sortedKeys[V any](m map[string]V) []string {
 	sort.Strings(ks)
 	return ks
 }
+
+func isNilIface(s string) bool { return s == "niliface" || s == "(mk_Iface 0 0)" }
+func isNilSlice(s string) bool { return s == "nilslice" || s == "(mk_Slice 0 0 0 0)" }
